@@ -29,9 +29,9 @@ ASSUMPTIONS = [
     "formats outside {date, date-time, uuid, ipv4, ipv6, byte} and ECMA-only regex features are not judged",
     "Python `re.search` is the pattern semantics (what JSON Schema prescribes, modulo dialect)",
 ]
-MIN_EVALUATIONS = {"quick": 3000, "thorough": 100000}
+MIN_EVALUATIONS = {"quick": 2500, "thorough": 100000}
 MIN_NONTRIVIAL = {"quick": 1200, "thorough": 30000}
-REACH_FLOORS = {"raw:path": 1000, "raw:query": 500, "raw:header": 300, "raw:body": 500, "operations": 100}
+REACH_FLOORS = {"raw:path": 1000, "raw:query": 500, "raw:header": 300, "raw:body": 500, "operations": 60}
 SHARD_TIMEOUT = {"quick": 900, "thorough": 5400}
 
 STRIP = ("name", "in", "required", "collectionFormat", "description", "style", "explode")
